@@ -134,7 +134,7 @@ func init() {
 		ID:          "C09",
 		Level:       "exploration",
 		Technique:   "runtime oracle over an enumerated score domain: every pair (and triples) compared with an independent rank function",
-		Rule:        "core domain = lost, won, mate k for all 255 non-zero int8 k, ~110 representative float32 values incl. +-0, subnormals, neighbours, +-MaxFloat32, +-Inf; all ordered pairs of the core are checked (Less vs rank function, negation reversal, increment invariance, Max/Min), all triples of the decided/mate sub-domain for transitivity (thorough; sampled in quick), plus random float32 bit patterns against the core; distinct = distinct ordered pairs",
+		Rule:        "core domain = lost, won, mate k for all 255 non-zero int8 k, ~110 representative float32 values incl. +-0, subnormals, neighbours, +-MaxFloat32, +-Inf; all ordered pairs of the core are checked (Less vs rank function, negation reversal, increment invariance, Max/Min), all triples of the decided/mate sub-domain for transitivity (thorough; sampled in quick), plus random float32 bit patterns against the core; constructors keep the value they are given (20 float32 edge values pairwise, all mate distances); distinct = distinct ordered pairs",
 		Assumptions: []string{"NaN is not a score (C20 keeps evaluations finite)"},
 		Exhaustive:  func(string) bool { return true },
 		Workers:     16,
@@ -155,7 +155,7 @@ func init() {
 			return l
 		},
 		Floors: func(string) map[string]int64 {
-			return map[string]int64{"pairs": 100000, "triples": 100000}
+			return map[string]int64{"pairs": 100000, "triples": 100000, "constructor_checks": 200}
 		},
 		Run: func(c *fw.Ctx, cs fw.Case) {
 			core := scoreCore()
@@ -171,6 +171,7 @@ func init() {
 				}
 				if cs.N == 0 {
 					c.Sample(map[string]any{"pair": []string{core[3].String(), core[200].String()}, "less": core[3].Less(core[200])})
+					checkConstructors(c)
 				}
 			case "random":
 				r := cs.Rand()
@@ -210,6 +211,42 @@ func init() {
 			}
 		},
 	})
+}
+
+// checkConstructors: the order is stated over the values handed to the constructors ("every heuristic value,
+// numerically ordered", "mating sooner"), so a constructor must not fold two of them into one score: the score
+// built from f carries exactly f (bit for bit), the one built from k exactly k.
+func checkConstructors(c *fw.Ctx) {
+	reps := []float32{0, float32(math.Copysign(0, -1)), math.SmallestNonzeroFloat32, -math.SmallestNonzeroFloat32, 1e-6, -1e-6, 0.5, -0.5, 1, -1, 103, -103,
+		1e6, -1e6, 1e30, -1e30, math.MaxFloat32, -math.MaxFloat32, float32(math.Inf(1)), float32(math.Inf(-1))}
+	for i, f := range reps {
+		s := eval.HeuristicScore(eval.Pawns(f))
+		c.Eval(1)
+		c.Count("constructor_checks", 1)
+		if s.Type != eval.Heuristic || math.Float32bits(float32(s.Pawns)) != math.Float32bits(f) {
+			c.Violate("order:constructor", "HeuristicScore(%v) = %+v: not the heuristic value it was given", f, s)
+		}
+		for _, g := range reps[i+1:] {
+			t := eval.HeuristicScore(eval.Pawns(g))
+			if (f < g) != s.Less(t) || (g < f) != t.Less(s) {
+				c.Violate("order:constructor", "HeuristicScore(%v) vs HeuristicScore(%v): Less says %v / %v, the numbers say %v / %v", f, g, s.Less(t), t.Less(s), f < g, g < f)
+			}
+			// seen from the other side
+			if (f < g) != t.Negate().Less(s.Negate()) {
+				c.Violate("order:constructor", "-HeuristicScore(%v) < -HeuristicScore(%v) is %v although %v < %v is %v", g, f, t.Negate().Less(s.Negate()), f, g, f < g)
+			}
+		}
+	}
+	for k := -128; k <= 127; k++ {
+		if k == 0 {
+			continue
+		}
+		c.Eval(1)
+		c.Count("constructor_checks", 1)
+		if s := eval.MateInXScore(int8(k)); s.Type != eval.MateInX || s.Mate != int8(k) {
+			c.Violate("order:constructor", "MateInXScore(%d) = %+v", k, s)
+		}
+	}
 }
 
 func triple(c *fw.Ctx, a, b, d eval.Score) {
